@@ -1,6 +1,7 @@
 package main
 
 import (
+	"context"
 	"fmt"
 	"math"
 	"strconv"
@@ -232,8 +233,112 @@ func (e *cbfEp) op(c *Ctx, line string) {
 		ans := errClass(e.bf.Delete(bg))
 		e.net, e.ok = map[string]int{}, true
 		c.Emit(line, ans+logText(e.srv.takeLog(), e.name), false)
+	case "overlap":
+		// overlap <opA…> / <opB…>: opA parked in the client before its arguments are read, opB completes, opA released
+		a, b := splitSlash(w[1:])
+		expA, runA, keysA := e.sub(a)
+		expB, runB, keysB := e.sub(b)
+		before := map[string]int{}
+		for k, v := range e.net {
+			before[k] = v
+		}
+		okBefore := e.ok
+		ansA, ansB, log := runOverlap(e.srv, expA, expB, runA, runB)
+		checkArgv(c, "cbloom", line, log)
+		// server order: B first, then A
+		e.afterSub(c, line, b, keysB, ansB, before, okBefore)
+		e.afterSub(c, line, a, keysA, ansA, before, okBefore)
+		c.Hit("overlap:" + a[0] + "/" + b[0])
+		c.Emit(line, ansA+logText(logOf(log, 1), e.name)+" | "+ansB+logText(logOf(log, 2), e.name), true)
 	default:
 		c.Emit(line, "bad-op", false)
+	}
+}
+
+// sub prepares one add/remove/exists/mincount sub-operation for overlapping execution.
+func (e *cbfEp) sub(w []string) (expect []string, run func(ctx context.Context) string, keys []string) {
+	keys = e.keysOf(w[1:])
+	idx := idxStrings(keys, e.m, e.k)
+	single := len(keys) == 1 && len(keys[0])%2 == 0
+	switch w[0] {
+	case "add":
+		expect = append([]string{fmt.Sprint(len(keys))}, idx...)
+		run = func(ctx context.Context) string {
+			return guard(func() string {
+				if single {
+					return errClass(e.bf.Add(ctx, keys[0]))
+				}
+				return errClass(e.bf.AddMulti(ctx, keys))
+			})
+		}
+	case "remove":
+		expect = append(append([]string{}, idx...), fmt.Sprint(e.k))
+		run = func(ctx context.Context) string {
+			return guard(func() string {
+				if single {
+					return errClass(e.bf.Remove(ctx, keys[0]))
+				}
+				return errClass(e.bf.RemoveMulti(ctx, keys))
+			})
+		}
+	case "mincount":
+		expect = idx
+		run = func(ctx context.Context) string {
+			return guard(func() string {
+				r, err := e.bf.ItemMinCountMulti(ctx, keys)
+				if err != nil {
+					return errClass(err)
+				}
+				if r == nil {
+					return "nil"
+				}
+				return u64sText(r)
+			})
+		}
+	default: // exists
+		expect = idx
+		run = func(ctx context.Context) string {
+			return guard(func() string {
+				r, err := e.bf.ExistsMulti(ctx, keys)
+				if err != nil {
+					return errClass(err)
+				}
+				if r == nil {
+					return "nil"
+				}
+				return boolsText(r)
+			})
+		}
+	}
+	if len(keys) == 0 {
+		expect = nil
+	}
+	return expect, run, keys
+}
+
+func (e *cbfEp) afterSub(c *Ctx, line string, w, keys []string, ans string, before map[string]int, okBefore bool) {
+	switch w[0] {
+	case "add":
+		if ans == "ok" {
+			for _, k := range keys {
+				e.net[k]++
+			}
+		}
+	case "remove":
+		for _, k := range keys {
+			if e.net[k] > 0 {
+				e.net[k]--
+			} else {
+				e.ok = false
+			}
+		}
+	case "exists":
+		for i, k := range keys {
+			// present before the phase and not removed by the other call of this line
+			if okBefore && e.ok && before[k] > 0 && e.net[k] > 0 && len(ans) == len(keys) && ans[i] != '1' {
+				c.Fail("cbloom:false-negative:overlapping-calls", line, fmt.Sprintf("overlapping Exists reports item #%d (net multiplicity %d) as absent", i, e.net[k]))
+			}
+		}
 	}
 }
 
@@ -384,6 +489,42 @@ func runCBloom(c *Ctx) {
 		}
 		if m <= 24 {
 			ep.op(c, "s.hmget "+all(int(m)))
+		}
+	}
+	// (4) overlapping calls on one filter value (gated)
+	for epi := 0; epi < max(4, c.N/150); epi++ {
+		cf := []struct {
+			n uint
+			r float64
+		}{{200, 0.01}, {20, 0.2}}[epi%2]
+		bf, err := rueidisprob.NewCountingBloomFilter(&fakeClient{srv: newFakeServer(func() int64 { return 1 })}, "bf", cf.n, cf.r)
+		if err != nil {
+			continue
+		}
+		m, k, _ := rueidisprob.VerifParams(bf)
+		ep.op(c, fmt.Sprintf("reset %d %d n=%d rate=%s", m, k, cf.n, rateBits(cf.r)))
+		pool := make([]item, 16)
+		for i := range pool {
+			pool[i] = mkItem(fmt.Sprintf("oc%d-%d-%s", epi, i, strings.Repeat("y", i%2)))
+		}
+		ep.op(c, "add "+pool[0].word()+" "+pool[1].word())
+		ep.op(c, "overlap add "+pool[2].word()+" / add "+pool[3].word()+" "+pool[4].word())
+		ep.op(c, "overlap add "+pool[5].word()+" "+pool[6].word()+" / exists "+pool[0].word())
+		ep.op(c, "overlap exists "+pool[1].word()+" / add "+pool[7].word())
+		ep.op(c, "overlap mincount "+pool[2].word()+" / add "+pool[8].word()+" "+pool[9].word())
+		ep.op(c, "overlap remove "+pool[0].word()+" / add "+pool[10].word())
+		ep.op(c, "overlap add "+pool[11].word()+" / remove "+pool[3].word())
+		for i, it := range pool {
+			if ep.ok && ep.net[it.key] > 0 {
+				ep.op(c, "!exists "+it.word())
+				if i%2 == 0 {
+					v, err := ep.bf.ItemMinCount(bg, it.key)
+					ep.srv.takeLog()
+					if err == nil {
+						ep.op(c, fmt.Sprintf("!mincount %s %d", it.word(), v))
+					}
+				}
+			}
 		}
 	}
 }
